@@ -99,6 +99,7 @@ REPLAYERS["MC_Syntax"] = lambda run, scratch, rec: replay_cases(run, scratch, "M
 def _stream_corrupt(ev):
     # duplicate the recorded items of the whole string: breaks L4 (and usually L2)
     ev["items"] = ev["items"] + ev["items"] + [{"k": "err", "line": [120]}]
+    ev["count"] = len(ev["items"])
     return ev
 
 
@@ -370,6 +371,9 @@ def c02(run, scratch):
     retrace_trace(run, scratch, "Trace_Retrace_all", "all", 300 if t else 60, 300 if t else 150, SMALL_CORPUS,
                   workers=14 if t else 10)
     blocks_trace(run, scratch, 100000 if t else 150)
+    # the remaining query kinds of the statement: text and typed stack traces, signatures (mapper = cache = spec)
+    text_trace(run, scratch, "Trace_Text_all", "all", 60 if t else 15, 40, _c07_corrupt,
+               lambda e: e["t"] == "text" and len(e["text"]) > 0, workers=14 if t else 10)
     run.exhaustive = False
     run.assumptions += COMMON_ASSUME + ["mapper and cache are both held to the same TLA+ answer; text/typed stack traces and "
                                         "signatures are compared under C07/C08/C16"]
